@@ -1,5 +1,6 @@
 import Driver.Bytes
 import FV.Spec.Content
+import FV.Spec.Serialize
 /-! Model side of the emplacement suite (`E`, `F`, `A` lines). -/
 open FV
 namespace Drv
@@ -39,7 +40,10 @@ def runE (t : Ty) (a16 : Nat) (i : Init) (pre : Bytes) (withSpec : Bool) : Strin
       let sp := if withSpec then
           " spec=" ++ (match specOf t i with | .ok x => us x | _ => "SPEC-FAULT")
         else ""
-      s!"{base}{sp} p={probeStr t ⟨a16, o.bytes⟩}"
+      let ser := if t.align1 then
+          " ser=" ++ (match serialize t i with | some b => (if b.isEmpty then "-" else hexOf b) | none => "NONE")
+        else ""
+      s!"{base}{sp} p={probeStr t ⟨a16, o.bytes⟩}{ser}"
 
 def runA (t : Ty) (a16 : Nat) (i1 i2 : Init) (pre : Bytes) : String :=
   let s : Slice := ⟨a16, pre⟩
